@@ -27,6 +27,16 @@ ENVS = [
 ]
 
 
+# (prefix, suffix) around the symbolic stretch of a long source string
+LONG = [
+    ('path $a/lib:${a}/bin:$$HOME:$(A) -- ', ''),
+    ('', ' tail $a ${ab}$b1$$ $(a)$(B) end'),
+    ('x$$y ${_}', '}${a}$(A)) (z'),
+    ('0123456789 $b1 0123456789 ${', '} 0123456789 $a'),
+    ('$(A)$(a)$a$a_', '$_ 9'),
+]
+
+
 class C04(Harness):
     prop = 'C04'
     domain = 'U'
@@ -62,16 +72,24 @@ class C04(Harness):
         # the same text substituted twice in one process under two different environments
         for L in (1, 2, 3):
             us.append({'kind': 'twice', 'len': L})
+        # long sources: concrete text with several constructs around a short fully symbolic stretch
+        for pre, post in LONG:
+            for L in ((1, 2, 3) if tier == 'quick' else (1, 2, 3, 4)):
+                us.append({'kind': 'subst', 'len': L, 'map': 0, 'pre': pre, 'post': post})
         return us
 
     def inputs(self, eng, unit):
         return {'s': self.sym_str(eng, 's', unit['len'])}
 
+    @staticmethod
+    def _source(unit, inp):
+        return unit.get('pre', '') + inp['s'] + unit.get('post', '')
+
     # -- real code
     def observe(self, unit, inp):
         import ZConfig
         from ZConfig import substitution
-        s = inp['s']
+        s = self._source(unit, inp)
         if unit['kind'] == 'isname':
             try:
                 r = substitution.isname(s)
@@ -116,7 +134,7 @@ class C04(Harness):
 
     # -- oracle
     def expect(self, unit, inp, real):
-        s = inp['s']
+        s = self._source(unit, inp)
         if unit['kind'] == 'isname':
             return ('isname-true',) if O.isname(s) else ('isname-false',)
         if unit['kind'] == 'twice':
@@ -157,7 +175,7 @@ class C04(Harness):
         return real[0]
 
     def nontrivial(self, unit, inp, real):
-        return ('$' in inp['s']) if unit['kind'] == 'subst' else bool(inp['s'])
+        return ('$' in unit.get('pre', '') + inp['s'] + unit.get('post', '')) if unit['kind'] == 'subst' else bool(inp['s'])
 
     def boundary(self, eng, unit, inp):
         # adversarial witnesses: the string equals / contains a mapping key
